@@ -652,7 +652,57 @@ def check_single_snapshot(u):
     return obligations, failures, ["%s:%d `%s`; %d prepare/query calls rooted at it" % (file, _line(src, o + (txm.start() if txm else 0)), src[o + txm.start():o + txm.end()] + "…)" if txm else "?", len(preps))]
 
 
-CHECKS = {"single_snapshot": check_single_snapshot, "offer_loops": check_offer_loops, "speedy_prealloc": check_speedy_prealloc, "from_conn": check_from_conn, "sql_actor_scoping": check_sql_actor_scoping, "local_write_sequence": check_local_write_sequence, "insert_local_changes": check_insert_local_changes, "authz_layer": check_authz_layer, "readonly_guard": check_readonly_guard, "read_pool": check_read_pool}
+def check_sub_lag_stops(u):
+    """C12: "when continuity cannot be provided the stream stops … instead of continuing past a gap".  The two places where the server
+    learns that it lost live events: (a) forward_sub_to_sender's `Err(RecvError::Lagged(..))` arm (the broadcast receiver overflowed)
+    must leave the forwarding loop; (b) the buffering task of catch_up_sub must give up (return Err) when `queue_tx.try_send` fails
+    (more live events than the buffer holds) — that Err is turned into an error event by the `queue_task.await` arms."""
+    file = u["file"]
+    obligations = ["lagged-broadcast-receiver-stops-the-stream", "overflowing-catch-up-buffer-stops-the-stream", "buffer-task-failure-is-reported-and-stops"]
+    failures = []
+    samples = []
+    # (a)
+    src, msk, o, c = _fn_body(file, "forward_sub_to_sender")
+    m = re.search(r"Err\s*\(\s*RecvError\s*::\s*Lagged\s*\([^)]*\)\s*\)\s*=>", msk[o:c])
+    if not m:
+        raise LostAnchor("forward_sub_to_sender: no `Err(RecvError::Lagged(..)) =>` arm")
+    k = o + m.end()
+    while msk[k].isspace():
+        k += 1
+    if msk[k] != "{":
+        raise Unsupported("Lagged arm is not a block")
+    e = match_delim(msk, k)
+    if not re.search(r"\breturn\b", msk[k:e]):
+        failures.append((obligations[0], _line(src, k), "the Lagged arm does not return: the stream would continue past the skipped events"))
+    samples.append("%s:%d Lagged arm returns" % (file, _line(src, k)))
+    # (b)
+    src, msk, o, c = _fn_body(file, "catch_up_sub")
+    m = re.search(r"queue_tx\s*\.\s*try_send\s*\(", msk[o:c])
+    if not m:
+        raise LostAnchor("catch_up_sub: no queue_tx.try_send(")
+    # the enclosing `if … let Err(_) = queue_tx.try_send(..) { … }` block
+    k = o + m.end() - 1
+    k = match_delim(msk, k) + 1
+    while k < c and msk[k] != "{":
+        k += 1
+    e = match_delim(msk, k)
+    if not re.search(r"\breturn\s+Err\b", msk[k:e]):
+        failures.append((obligations[1], _line(src, k), "a failed try_send on the catch-up buffer does not end the buffering task with an error"))
+    samples.append("%s:%d try_send failure returns Err" % (file, _line(src, k)))
+    m = re.search(r"match\s+queue_task\s*\.\s*await\s*\{", msk[o:c])
+    if not m:
+        raise LostAnchor("catch_up_sub: no `match queue_task.await {`")
+    mo = o + m.end() - 1
+    mc = match_delim(msk, mo)
+    for pat, bs, be in _match_arms(msk, mo, mc):
+        if re.match(r"Ok\s*\(\s*Ok\b", pat):
+            continue
+        if not (re.search(r"\breturn\b", msk[bs:be]) and re.search(r"error_to_query_event_bytes_with_meta", msk[bs:be])):
+            failures.append((obligations[2], _line(src, bs), "arm `%s` of `match queue_task.await` does not send an error event and return" % pat))
+    return obligations, failures, samples
+
+
+CHECKS = {"sub_lag_stops": check_sub_lag_stops, "single_snapshot": check_single_snapshot, "offer_loops": check_offer_loops, "speedy_prealloc": check_speedy_prealloc, "from_conn": check_from_conn, "sql_actor_scoping": check_sql_actor_scoping, "local_write_sequence": check_local_write_sequence, "insert_local_changes": check_insert_local_changes, "authz_layer": check_authz_layer, "readonly_guard": check_readonly_guard, "read_pool": check_read_pool}
 
 
 def run_unit(prop, u, tier, ctx, here):
